@@ -133,6 +133,23 @@ def run(rep, tier):
                     c = cases[x[0]]
                     rep.violation({"pos": c["pos"], "ty": render.ty(c["ty"]), "what": "error context", "ctx": bad[0]},
                                   {"case": c, "expected_ctx": x[2], "observed": g, "source": render.bridge([x[1]])})
+    # last clause of the statement (every bound implied by a used type is spelled out on the method): the bound half of
+    # spec/life/Lifetimes.tla on signatures that use one bounded struct TWICE (a validation that looks at a type only once per
+    # method, or only at its first use, shows here); the single-use signatures are C04's
+    import c04
+    eb = lib.tlc("life", "MC_Lifetimes", "bounds_2p.cfg", workers=2, coverage=False, heap="6g")
+    lib.tlc_expect_ok(eb, "implied-bound emission")
+    rep.add_tlc("Lifetimes/bounds_2p", eb)
+    cb = c04.fix(eb.printed["CASE"])
+    if tier == "quick":
+        random.Random(lib.seed()).shuffle(cb)
+        cb = [c for c in cb if not c["accepted"]][:1200] + [c for c in cb if c["accepted"]][:600]
+    nb = c04.evaluate(rep, cb, ["a", "b"], wd)
+    rep.extra["implied_bound_signatures"] = nb
+    ncheck += nb
+    for c in cb:
+        if not c["accepted"]:
+            rep.nontriv(c["sig"])
     rep.evaluations += ncheck
     rep.traces += ncheck
     for c in cases:
